@@ -973,6 +973,23 @@ func runScenarioOnce(id int, sc *scenario) bool {
 			}
 			lab = append(lab, strconv.Itoa(n))
 		}
+		// all records of the request are filed under ITS upload id and ITS file ids and nowhere else:
+		// a = this uid's results whose labels name the request's own upload and one of its parts,
+		// b = results of the queries upload-part:<file id> over the file ids of the answer
+		ownA, ownB := 0, 0
+		for _, r := range after.all {
+			if r.uid == rq.uid && rid != "-" && r.upload == rid && strings.HasPrefix(r.part, rid+"/") {
+				ownA++
+			}
+		}
+		for _, fid := range resp.fids {
+			rs, _ := s.search("upload-part:" + fid)
+			for _, r := range rs {
+				if r.uid == rq.uid {
+					ownB++
+				}
+			}
+		}
 		listed := false
 		for _, u := range after.list {
 			if rid != "-" && u.UploadID == rid {
@@ -1022,8 +1039,8 @@ func runScenarioOnce(id int, sc *scenario) bool {
 			}
 			stored = joinOr(st)
 		}
-		sobs = append(sobs, fmt.Sprintf("step=%d ok=%s vis=%d,%d,%d lab=%s listed=%s lim=%s inprog=%s earlier=%s idsok=%s stored=%s",
-			step, b01(resp.status == 200), len(byUID), inAll, max(own, 0), strings.Join(lab, ","), b01(listed), b01(limOK), b01(inprog), b01(earlier), b01(idsOK(s.ffs.ids)), stored))
+		sobs = append(sobs, fmt.Sprintf("step=%d ok=%s vis=%d,%d,%d lab=%s own=%d,%d listed=%s lim=%s inprog=%s earlier=%s idsok=%s stored=%s",
+			step, b01(resp.status == 200), len(byUID), inAll, max(own, 0), strings.Join(lab, ","), ownA, ownB, b01(listed), b01(limOK), b01(inprog), b01(earlier), b01(idsOK(s.ffs.ids)), stored))
 	}
 	var tl []string
 	for t := range tags {
@@ -1365,6 +1382,37 @@ func main() {
 		}
 	}
 
+	// 3c. files that re-declare or remove the server's keys (upload, upload-part, upload-file, upload-time,
+	// by) — before the first result line, after it, with and without a blank-line header: the server's
+	// labels are permanent, every record stays filed under the upload's own ids
+	tamper := []string{"upload-part: 20200101.1/0", "upload: 20200101.9", "upload-part:", "upload:", "upload-file: evil.txt",
+		"upload-file:", "upload-time: 1999-01-01T00:00:00Z", "by: mallory", "by:", "upload-part: ID/0"}
+	for i := 0; i < hx.N(12, 120); i++ {
+		uid := g.uid()
+		var b strings.Builder
+		fmt.Fprintf(&b, "uid: %s\n", uid)
+		if i%3 == 1 {
+			b.WriteString(hx.Pick(g.r, tamper) + "\n")
+		}
+		if i%4 == 2 {
+			b.WriteString("\n") // a blank-line header
+		}
+		b.WriteString("BenchmarkA 1 2 ns/op\n")
+		for n := 1 + g.r.Intn(3); n > 0; n-- {
+			b.WriteString(hx.Pick(g.r, tamper) + "\n")
+		}
+		b.WriteString("BenchmarkB 3 4 ns/op\n")
+		if g.r.Bool() {
+			b.WriteString(hx.Pick(g.r, tamper) + "\nBenchmarkB 5 6 ns/op\n")
+		}
+		rq := goodReq(g.r, uid, 1+g.r.Intn(2))
+		j := g.r.Intn(len(rq.parts))
+		if rq.parts[j].form == "file" {
+			rq.parts[j].content = b.String()
+		}
+		g.emit(g.wrap(rq, "serverkeys"))
+	}
+
 	// 3b. every field name x {no filename, filename} x {before, between, after the files}: a part whose
 	// field name is not "file" fails the whole upload, whatever else it carries
 	for _, name := range fieldNames {
@@ -1491,9 +1539,56 @@ func main() {
 		g.emit(sc)
 	}
 
+	runHeavyFaults(g)
 	runIDs(g)
 	runHTTPConcFamily(g)
 	runBigFamily(g)
+}
+
+// runHeavyFaults: an upload of thousands of results with distinct names (one record and 7 label rows
+// each, i.e. tens of thousands of rows sent in hundreds of flushes) that fails near its end: nothing of it
+// may be left, however many rows had been sent before the fault.
+func runHeavyFaults(g *gen) {
+	heavy := func(n, kind int) {
+		uid := g.uid()
+		var b strings.Builder
+		fmt.Fprintf(&b, "uid: %s\n", uid)
+		for j := 0; j < n; j++ {
+			fmt.Fprintf(&b, "BenchmarkH%d 1 %d ns/op\n", j, j)
+		}
+		rq := reqSpec{cutAt: -1, uid: uid, parts: []partSpec{{form: "file", fname: "heavy.txt", content: b.String()}}}
+		tag := ""
+		switch kind {
+		case 0: // a later file without benchmark lines
+			rq.parts = append(rq.parts, partSpec{form: "file", fname: "bad.txt", content: "PASS\n"})
+			tag = "heavy-nobench"
+		case 1: // the client aborts at the end
+			rq.parts = append(rq.parts, partSpec{form: "abort", content: "1"})
+			tag = "heavy-abort"
+		case 2: // the body is cut shortly before its end
+			rq.parts = append(rq.parts, partSpec{form: "file", fname: "tail.txt", content: goodFile(g.r, uid, 2)})
+			body, _ := buildBody(rq.parts, "")
+			rq.cutAt = len(body) - 40
+			tag = "heavy-cut"
+		case 3: // a write error on the last file
+			rq.parts = append(rq.parts, partSpec{form: "file", fname: "tail.txt", content: goodFile(g.r, uid, 2)})
+			rq.fault = &faultSpec{k: totalOps(&rq, "user") - 2}
+			tag = "heavy-fswrite"
+		}
+		sc := &scenario{user: "user", store: "local", tags: []string{"heavy", tag}}
+		sc.reqs = append(sc.reqs, goodReq(g.r, g.uid(), 1), rq, goodReq(g.r, g.uid(), 1))
+		g.emit(sc)
+	}
+	seed := g.r.Intn(1 << 16)
+	if hx.Tier() != "thorough" {
+		heavy(5000+seed%500, seed%4)
+		return
+	}
+	for _, n := range []int{3000, 5000, 12000} {
+		for kind := 0; kind < 4; kind++ {
+			heavy(n+seed%100, kind)
+		}
+	}
 }
 
 func fileOnly(ps []partSpec) []partSpec {
